@@ -401,3 +401,57 @@ func verif_C19_limit_auth() {
 		verifAssert(!tooLong && r.code == 250, "C19.auth-line-within-max-never-refused")
 	}
 }
+
+// verif_C19_mutants: hostile input that is ALMOST right. Grammar-derived command
+// lines that exercise every argument parser of the server (source routes,
+// quoted local parts, address literals, xtext and utf-8-addr-xtext values, NOTIFY
+// lists, chunk sizes, SASL initial responses, greeting arguments) with ONE
+// position - any position - replaced by an arbitrary octet, deleted, or
+// doubled; the line is served behind the prelude it needs. Whatever the server
+// makes of it: no crash, no recovered panic, nothing logged, well-formed
+// replies, and the connection still answers the NOOP behind it (or has closed
+// it with a final 5xx/4xx notice).
+func verif_C19_mutants() {
+	type tpl struct{ prelude, line, tail string }
+	tpls := []tpl{
+		{"", "MAIL FROM:<@a,@b:u@h> SIZE=10 BODY=8BITMIME", ""},
+		{"MAIL FROM:<s@v>\r\n", "RCPT TO:<@a,@b:u@h> NOTIFY=SUCCESS,DELAY ORCPT=rfc822;a+40b", ""},
+		{"", "MAIL FROM:<\"a\\b\"@h> RET=HDRS ENVID=a+2Bb AUTH=<>", ""},
+		{"MAIL FROM:<s@v> SMTPUTF8\r\n", "RCPT TO:<u@[1.2.3.4]> ORCPT=utf-8;a\\x{41}b", ""},
+		{"", "MAIL FROM:<u@h> AUTH=a+3Db@c REQUIRETLS SMTPUTF8", ""},
+		{"MAIL FROM:<s@v>\r\nRCPT TO:<r@v>\r\n", "BDAT 3 LAST", "abc"},
+		{"", "AUTH PLAIN AGEAYg==", ""},
+		{"", "EHLO [1.2.3.4] x", ""},
+		{"", "VRFY <a@b>", ""},
+	}
+	t := tpls[verifChoice(len(tpls))]
+	b := []byte(t.line)
+	pos := nondetInt(0, len(b)-1)
+	var line []byte
+	switch verifChoice(3) {
+	case 0:
+		x := nondetByte()
+		assume(x != '\n')
+		line = append(append(append(line, b[:pos]...), x), b[pos+1:]...)
+	case 1:
+		line = append(append(line, b[:pos]...), b[pos+1:]...)
+	case 2:
+		line = append(append(append(line, b[:pos+1]...), b[pos]), b[pos+1:]...)
+	}
+	be := &vbackend{authSession: true, mechs: []string{"PLAIN"}}
+	be.saslFn = func(_ *vsession, mech string) (sasl.Server, error) { return &vsasl{failAt: -1}, nil }
+	s, lg := verifServer(be)
+	s.EnableSMTPUTF8, s.EnableREQUIRETLS, s.EnableBINARYMIME, s.EnableDSN, s.EnableRRVS = true, true, true, true, true
+	s.AllowInsecureAuth = true
+	in := "EHLO c\r\n" + t.prelude + string(line) + "\r\n" + t.tail + "NOOP\r\n"
+	vc, _, err := verifServe(s, []byte(in), io.EOF)
+	reps, wf := verifParseReplies(vc.out)
+	verifObserve("c19mut", t.line, pos, string(line), wf, len(reps), lg.lines)
+	verifAssert(err == nil && lg.lines == 0 && verifPanicEvents() == 0, "C19.mutant-no-crash")
+	verifAssert(wf && len(reps) >= 3, "C19.mutant-wellformed")
+	if wf && len(reps) >= 3 {
+		last := reps[len(reps)-1]
+		verifAssert(last.code == 250 || (vc.closed && last.code >= 400), "C19.mutant-command-mode-or-closed")
+	}
+	verifReach("C19.mutant-end")
+}
